@@ -283,6 +283,8 @@ class Program:
     def func(self, qualname: str) -> FuncInfo:
         if "@for:" in qualname:
             return self.slice_for(qualname)
+        if "@if:" in qualname:
+            return self.slice_if(qualname)
         if qualname in self.functions:
             return self.functions[qualname]
         # allow Class.method shorthand and bare module-level function names
@@ -328,6 +330,26 @@ def _slice_for(self, qualname: str) -> FuncInfo:
 
 
 Program.slice_for = _slice_for
+
+
+def _slice_if(self, qualname: str) -> FuncInfo:
+    """'<function>@if:<test>' -> the body of the (unique) `if <test>:` statement inside <function> (the test compared as
+    ast.unparse text), mechanically extracted from the real AST as a pseudo-function with the parameters of <function>;
+    a `return` inside it ends the slice.  The else branch is not part of the slice."""
+    base, test = qualname.split("@if:")
+    fi = self.func(base)
+    ifs = [n for n in ast.walk(fi.node) if isinstance(n, ast.If) and ast.unparse(n.test) == test]
+    if len(ifs) != 1:
+        raise KeyError(f"slice {qualname}: {len(ifs)} matching if statements")
+    node = ifs[0]
+    fn = ast.FunctionDef(name=f"{fi.node.name}__if", args=fi.node.args, body=node.body, decorator_list=[], returns=None,
+                         type_comment=None, type_params=[])
+    ast.copy_location(fn, node)
+    ast.fix_missing_locations(fn)
+    return FuncInfo(f"{fi.qualname}@if:{test}", fn, fi.module, fi.cls, "slice", [])
+
+
+Program.slice_if = _slice_if
 
 
 def loops_of(fn: ast.FunctionDef):
